@@ -178,6 +178,7 @@ let case_retry k args lines =
        let last_srv = ref (-1) in
        let last_opt = ref false in
        let ncb = ref 0 in
+       let nremoved = ref 0 in
        let seen_end = ref false in   (* callbacks after END come from ares_destroy *)
        let ntx = ref 0 in
        let base = match metrics_server_timeout timeout maxt { tv_sec = zi 1000; tv_usec = Z0 } metrics_init with Ok b -> b | _ -> Z0 in
@@ -297,6 +298,19 @@ let case_retry k args lines =
            let removed_current = (!q).q_conn <> None && !last_srv >= int_of_z n' in
            s_now := n';
            if removed_current then push_in (IConnClosed (n', aRES_SUCCESS))
+         | ["E"; "onlyserver"; idx] ->
+           (* the list becomes the single server idx: the new one is added first, then every other
+              server is removed; generated only from a single-server list, so the count is 1 when
+              the query's server goes away *)
+           last_tx := None;
+           Hashtbl.replace feats "flap" ();
+           let removed_current = (!q).q_conn <> None && (!q).q_ended = None && !last_srv <> int_of_string idx in
+           s_now := zi 1;
+           if removed_current then begin
+             incr nremoved;
+             if Z.ltb (Z.mul smax tries) (zi !nremoved) then Hashtbl.replace feats "removals-over-budget" ();
+             push_in (IConnClosed (zi 1, aRES_SUCCESS))
+           end
          | ["E"; "openfail"; _] | ["E"; "sendfail"; _] -> ()
          | "END" :: _ -> seen_end := true
          | "CB" :: st :: _ when not !seen_end && not (List.mem "CLOCKRANGE" lines && zd st = zi 16) ->
